@@ -77,21 +77,24 @@ func (c *caseCtx) checkAsked(name string, out *outcome, stale *entry) fresh {
 		c.viol("bad_query", out, "the upstream received a query that is not the lookup's own A/AAAA question: %s", l.badQuery[0])
 		return f
 	}
-	if !v.fuzz {
-		// TCP must be tried for every family that got no acceptable UDP answer
-		for fi, fam := range []int{4, 6} {
-			if v.accUDP[fi] {
-				continue
-			}
-			if l.tcpConns == 0 {
-				c.viol("no_tcp_fallback", out, "UDP produced no usable answer for family %d, yet no TCP connection was made (result: %v / %s %s)", fam, out.Err, addrList(out.A), addrList(out.AAAA))
-				return f
-			}
-			if l.tcpQueries > 0 && !l.tcpAsked[fi] {
-				c.viol("tcp_fallback_skips_family", out, "UDP produced no usable answer for family %d, but the TCP connection(s) never asked for it", fam)
-				return f
+	tcpOK := func() bool {
+		if !v.fuzz {
+			// TCP must be tried for every family that got no acceptable UDP answer
+			for fi, fam := range []int{4, 6} {
+				if v.accUDP[fi] {
+					continue
+				}
+				if l.tcpConns == 0 {
+					c.viol("no_tcp_fallback", out, "UDP produced no usable answer for family %d, yet no TCP connection was made (result: %v / %s %s)", fam, out.Err, addrList(out.A), addrList(out.AAAA))
+					return false
+				}
+				if l.tcpQueries > 0 && !l.tcpAsked[fi] {
+					c.viol("tcp_fallback_skips_family", out, "UDP produced no usable answer for family %d, but the TCP connection(s) never asked for it", fam)
+					return false
+				}
 			}
 		}
+		return true
 	}
 	if out.Err != nil {
 		f.failed = true
@@ -107,7 +110,7 @@ func (c *caseCtx) checkAsked(name string, out *outcome, stale *entry) fresh {
 			c.viol("failed_although_both_answered", out, "Lookup(%s) failed (%v) although both queries were answered acceptably before anything unusable arrived", name, out.Err)
 			return f
 		}
-		f.ok, f.dontCare = true, !v.mustFail
+		f.ok, f.dontCare = tcpOK(), !v.mustFail
 		return f
 	}
 	// success
@@ -130,7 +133,7 @@ func (c *caseCtx) checkAsked(name string, out *outcome, stale *entry) fresh {
 	m4, m6 := matchFamily(v.acc[0], out.A), matchFamily(v.acc[1], out.AAAA)
 	if len(m4) > 0 && len(m6) > 0 {
 		lt := expiryOf(v, m4, m6, out.End, l)
-		f.ok, f.dontCare = true, !v.mustSucceed
+		f.ok, f.dontCare = tcpOK(), !v.mustSucceed
 		f.entry = &entry{name: name, a: out.A, aaaa: out.AAAA, lt: lt, stored: out.End}
 		return f
 	}
@@ -140,7 +143,7 @@ func (c *caseCtx) checkAsked(name string, out *outcome, stale *entry) fresh {
 			c.viol("stale_served_although_upstream_answered", out, "Lookup(%s) served the expired entry %s %s although upstream answered both queries acceptably", name, addrList(stale.a), addrList(stale.aaaa))
 			return f
 		}
-		f.ok, f.dontCare = true, !v.mustFail
+		f.ok, f.dontCare = tcpOK(), !v.mustFail
 		return f
 	}
 	// neither a fresh nor the stale result: say where the addresses come from
